@@ -173,7 +173,9 @@ def build_gms(variant, i, mode, rep, ref, env, msi=None, setup=None):
     from types import SimpleNamespace as NS
     kind = variant.split('-')[1]
     content_type = variant.split('-')[2]
-    with_sidx = not variant.endswith('-nosidx')
+    with_sidx = '-nosidx' not in variant
+    has_tfdt = not variant.endswith('-notfdt')
+    from dashlive.mpeg import mp4 as real_mp4
     geti = lambda k: None if i.get(k) is None else int(i[k])
     num = geti('seg_num') if kind == 'number' else None
     tim = geti('seg_time') if kind == 'time' else None
@@ -182,16 +184,37 @@ def build_gms(variant, i, mode, rep, ref, env, msi=None, setup=None):
     if msi is None:
         msi = extract_method('dashlive/server/requesthandler/media_requests.py', 'LiveMedia', 'calculate_media_segment_index')
 
+    class Traf:
+        """a traf without a tfdt child: tfhd, trun (the order is what index / insert_child see)"""
+        def __init__(self):
+            self.order = ['tfhd', 'trun']
+            self.tfhd = NS(base_data_offset=1234)
+            self.trun = NS(flags=int(i.get('trun_flags', 0)))
+
+        def index(self, name):
+            return self.order.index(name)
+
+        def insert_child(self, idx, child):
+            self.order.insert(idx, 'tfdt')
+            self.tfdt = child
+
+        def find_child(self, name):
+            return getattr(self, name, None)
+
     class Atom(NS):
         def encode(self, dest):
+            traf = self.moof.traf
             state['encoded'] = NS(sequence_number=self.moof.mfhd.sequence_number,
-                                  tfdt=self.moof.traf.tfdt.base_media_decode_time, has_sidx=hasattr(self, 'sidx'))
+                                  tfdt=traf.tfdt.base_media_decode_time, has_sidx=hasattr(self, 'sidx'))
+            if not has_tfdt:
+                state['encoded'].__dict__.update(order=list(traf.order), trun_flags=traf.trun.flags,
+                                                 tfhd_base=traf.tfhd.base_data_offset, tfdt_version=traf.tfdt.version)
             dest.write(b'x' * 10)
 
     def load_fragment(media_file, mod, options, parse_samples=False):
         state['mod'] = mod
-        a = Atom(moof=NS(mfhd=NS(sequence_number=int(i.get('stored_seq', 0))),
-                         traf=NS(tfdt=NS(base_media_decode_time=TF(mod)))))
+        traf = NS(tfdt=NS(base_media_decode_time=TF(mod)), find_child=lambda name: None) if has_tfdt else Traf()
+        a = Atom(moof=NS(mfhd=NS(sequence_number=int(i.get('stored_seq', 0))), traf=traf))
         if with_sidx:
             a.sidx = object()
         return a
@@ -205,12 +228,13 @@ def build_gms(variant, i, mode, rep, ref, env, msi=None, setup=None):
         'flask': flask, 'io': io, 'AdaptationSet': adp, 'DashTiming': lambda now, ref_, options: rep._timing,
         'UTC': lambda: datetime.timezone.utc, 'EventFactory': NS(create_event_generators=lambda o: []),
         'content_type_to_mime_type': lambda a, b: 'video/mp4', 'add_allowed_origins': lambda h: None,
-        'mp4': NS(Mp4Atom=object, BoxWithChildren=object), 'models': NS(Stream=object, MediaFile=object),
+        'mp4': real_mp4, 'models': NS(Stream=object, MediaFile=object),
         'OptionsContainer': object})
     media_file = NS(representation=rep, content_type=content_type, track_id=1, name='x', codec_fourcc='avc1')
     options = NS(mode=mode, segmentTimeline=(kind == 'time'), videoCorruption=None)
     rep.encrypted = False
-    env.update(seg_num=num, seg_time=tim, TF=TF, mode=mode)
+    env.update(seg_num=num, seg_time=tim, TF=TF, mode=mode, trun_flags=int(i.get('trun_flags', 0)),
+               order_is=lambda x, *names: list(x) == list(names))
 
     def call():
         with app.test_request_context('/x'):
